@@ -57,6 +57,11 @@ func genC01(r *Rng, tier string, idx int, args map[string]string) []string {
 	limits := []int{-3, 0, 1, 2, k - 1, k, k + 1, n, n + 1, n + 50}
 	typo := misspellDrop(r, word)
 	queries := []string{word, tool + " " + word, typo, typo, strings.ToUpper(word), base.Description}
+	if idx%7 == 3 {
+		// a query of several KB that repeats action / target words: any per-occurrence factor that is not taken once per
+		// distinct word multiplies hundreds of times (scores must stay finite on the library path, which has no length limit)
+		queries = append(queries, strings.TrimSpace(strings.Repeat(Pick(r, []string{"compress archive directory ", "find search files ", "install download package ", "delete remove " + word + " "}), Pick(r, []int{120, 300, 450}))))
+	}
 	var reqs []SearchReq
 	for i, m := 0, r.Range(4, 8); i < m; i++ {
 		q := Pick(r, queries)
